@@ -53,6 +53,15 @@ def _edge_source(fnode):
     return out
 
 
+def _core_in(core, val):
+    """the counting computation `core` (callee names and the inputs they take) occurs in the canonical value `val`,
+    whether its arguments are passed positionally or by keyword"""
+    if core in val:
+        return True
+    toks = [t for t in re.findall(r"[A-Za-z_][\w.]*(?:\['\w+'\])?(?!\w*=)", re.sub(r"\b\w+=(?!=)", "", core)) if t not in ("axis",)]
+    return bool(toks) and all(t in val for t in toks)
+
+
 def check(run):
     ix = Index(run.repo)
     run.analysed.update(ix.stats())
@@ -353,7 +362,7 @@ def check(run):
                 continue
             n6 += 1
             val = pq.canon(r.value, r) if r.value is not None else "None"
-            if any(c in val for c in cores):
+            if any(_core_in(c, val) for c in cores):
                 run.instance("R6", fi.where, f"{fi.qualname}: `return {val[:70]}` flows from the counting computation", True)
                 continue
             g = pq.guards(r)
